@@ -220,7 +220,7 @@ func TestC10Split(t *testing.T) {
 
 // TestC10Sections: the checksum as the section writer and reader use it.
 func TestC10Sections(t *testing.T) {
-	rec := obs.NewRecorder("C10", "sections", "rapid: the checksum where the library uses it: PAT/PMT sections of every size written by writePSIData (1..3 per unit, the struct's CRC32 field holding a stale value) must each end with the bitwise CRC-32/MPEG-2 of the bytes before it (the writer feeds the checksum piecewise; 40% after a write of the same section that the writer refused part-way); sections of the six table types with arbitrary bodies of 0..1000 bytes and the reference CRC must be accepted by the Demuxer, and rejected when one CRC bit is flipped, including two sections of equal length in a row (pooled buffer reuse); non-trivial = section longer than 64 bytes; distinct by section bytes")
+	rec := obs.NewRecorder("C10", "sections", "rapid: the checksum where the library uses it: PAT/PMT sections of every size written by writePSIData (1..3 per unit, the struct's CRC32 field holding a stale value, the section_syntax_indicator bit sometimes 0) must each end with the bitwise CRC-32/MPEG-2 of the bytes before it (the writer feeds the checksum piecewise; 40% after a write of the same section that the writer refused part-way); sections of the six table types with arbitrary bodies of 0..1000 bytes and the reference CRC must be accepted by the Demuxer, and rejected when one CRC bit is flipped, including two sections of equal length in a row (pooled buffer reuse); non-trivial = section longer than 64 bytes; distinct by section bytes")
 	defer rec.Flush()
 	rapid.Check(t, func(t *rapid.T) {
 		// writer
@@ -228,7 +228,7 @@ func TestC10Sections(t *testing.T) {
 		s := gen.Section(t, kind, gen.SectionOpts{MaxBody: rapid.IntRange(0, 1000).Draw(t, "maxbody")}, "s")
 		enc := s.Encode()
 		sec := &astits.PSISection{
-			Header: &astits.PSISectionHeader{PrivateBit: s.Private, SectionLength: uint16(len(enc) - 3), SectionSyntaxIndicator: true, TableID: astits.PSITableID(s.TableID)},
+			Header: &astits.PSISectionHeader{PrivateBit: s.Private, SectionLength: uint16(len(enc) - 3), SectionSyntaxIndicator: !gen.Chance(t, 15, "nosyntaxbit"), TableID: astits.PSITableID(s.TableID)},
 			Syntax: &astits.PSISectionSyntax{
 				Header: &astits.PSISectionSyntaxHeader{CurrentNextIndicator: s.CurrentNext, LastSectionNumber: s.Last, SectionNumber: s.Number, TableIDExtension: s.Ext(), VersionNumber: s.Version},
 				Data:   &astits.PSISectionSyntaxData{PAT: s.PAT, PMT: s.PMT},
